@@ -10,6 +10,7 @@ quadrature; Derive against hyper-dual derivatives.
 from __future__ import annotations
 
 import itertools
+import json
 import math
 import os
 
@@ -139,6 +140,11 @@ def tasks(tier, seed):
                 t.append(dict(part='seeded', typ=typ, seed=sd, run=1, fresh=True, mode=mode))
     for i, pair in enumerate(itertools.permutations(list(DRAWS), 2)):
         t.append(dict(part='sidebyside', pair=list(pair)))
+    # the same seeded model with several pseudo-random draw variables, in interpreter processes that differ in their string
+    # hashing (PYTHONHASHSEED): reproducible means reproducible from one process to the next
+    for hs in ((0, 1, 2, 3) if tier == 'quick' else (0, 1, 2, 3, 4, 5, 6, 7)):
+        for sd in (1, 2):
+            t.append(dict(part='seeded_hash', hashseed=hs, seed=sd))
     t.append(dict(part='native_table', tier=tier))
     pairs = [list(c) for c in itertools.permutations(list(DRAWS), 2)]
     for i, first in enumerate(pairs):
@@ -164,6 +170,8 @@ def run_task(task):
         _seeded(task, rec)
     elif part == 'sidebyside':
         _sidebyside(task, rec)
+    elif part == 'seeded_hash':
+        _seeded_hash(task, rec)
     elif part == 'native_table':
         _native_table(task, rec)
     elif part == 'reuse':
@@ -290,6 +298,38 @@ def _reuse(task, rec):
     rec.sample(dict(part='reuse', first=task['first']))
 
 
+MULTI_TYPES = {'q_u': 'UNIFORM', 'a_n': 'NORMAL', 'm_s': 'UNIFORMSYM', 'z_a': 'NORMAL_ANTI'}
+
+
+def seeded_multi(sd):
+    """The value of a seeded Monte-Carlo model with four pseudo-random draw variables (run inside a child interpreter)."""
+    from vf.engine import make_biogeme
+    db, rows = make_db(3, [])
+    spec = {nm: (v, None, None, 0) for nm, v in PARAMS[0].items()}
+    lin = B('b1')
+    for i, (nm, typ) in enumerate(MULTI_TYPES.items()):
+        lin = ('+', lin, ('*', ('num', 0.25 * (i + 1)), ('draw', nm, typ)))
+    b = make_biogeme(db, {'v': R.Builder(spec).build(('mc', ('exp', ('*', ('num', 0.5), lin))))}, number_of_draws=6, seed=sd)
+    out = b.simulate({nm: PARAMS[0][nm] for nm in b.free_beta_names})
+    return [float(v) for v in out['v']]
+
+
+def _seeded_hash(task, rec):
+    import subprocess
+    import sys
+    env = dict(os.environ, PYTHONHASHSEED=str(task['hashseed']))
+    code = ('import json, sys; sys.path.insert(0, %r); import props.c10 as c; '
+            'print("RESULT" + json.dumps(c.seeded_multi(%d)))' % (os.path.dirname(os.path.dirname(os.path.abspath(__file__))), task['seed']))
+    p = subprocess.run([sys.executable, '-c', code], env=env, capture_output=True, text=True, timeout=600)
+    line = [ln for ln in p.stdout.splitlines() if ln.startswith('RESULT')]
+    if p.returncode != 0 or not line:
+        rec.violation('C10|raised|seeded-model-with-several-draw-variables', f'child interpreter failed: {p.stderr[-300:]}', dict(task))
+        return
+    values = json.loads(line[0][len('RESULT'):])
+    rec.case(('seeded_hash', task['hashseed'], task['seed']), None, outcome='seeded-hash')
+    rec.extra = dict(kind='seeded_hash', hashseed=task['hashseed'], seed=task['seed'], values=values)
+
+
 def _sidebyside(task, rec):
     """Two Monte-Carlo formulas, each over its own draw variable, side by side in one BIOGEME object.  Histories: before
     simulate(), any sequence (length 0..2) of the formulas is evaluated alone through the expression-level entry point
@@ -390,6 +430,25 @@ def _seeded(task, rec):
 
 
 def finalize(agg, tier, seed):
+    byseed = {}
+    for task, extra in agg.extras:
+        if extra and extra.get('kind') == 'seeded_hash':
+            byseed.setdefault(extra['seed'], []).append(extra)
+    for sd, lst in sorted(byseed.items()):
+        agg.counts['seed_reproducibility_across_hash_seeds'] += len(lst)
+        ref = lst[0]
+        for other in lst[1:]:
+            if other['values'] != ref['values']:
+                agg.violations.append(dict(key='C10|same-seed-different-results|several-pseudo-random-draw-variables:across-interpreter-hash-seeds',
+                                           what=f"seed {sd}: PYTHONHASHSEED={ref['hashseed']} gives {ref['values']}, "
+                                                f"PYTHONHASHSEED={other['hashseed']} gives {other['values']}",
+                                           case=dict(part='seeded_hash', seed=sd, hashseeds=[ref['hashseed'], other['hashseed']])))
+                break
+    if len(byseed) >= 2:
+        vals = [lst[0]['values'] for _, lst in sorted(byseed.items())]
+        if vals[0] == vals[1]:
+            agg.violations.append(dict(key='C10|different-seeds-same-draws|several-pseudo-random-draw-variables',
+                                       what='seeds 1 and 2 give identical values', case=dict(part='seeded_hash', seed=1, hashseeds=[0, 0])))
     runs = {}
     for task, extra in agg.extras:
         if extra and 'typ' in extra:
@@ -515,7 +574,20 @@ def integrals():
                               _phi(om)), None),
         'scaled-gauss': (('*', ('exp', ('*', ('num', -0.5), ('**', ('/', om, V('x1')), ('num', 2.0)))), ('num', 1.0)),
                          lambda p, row: math.sqrt(2.0 * math.pi) * abs(row['x1'])),
+        # the derivative operator inside the integral, with respect to every kind of name the integrand contains: the first
+        # parameter of the numbering (b1), another parameter (s), a data variable (x1); with c = 0.1 x1 b1 the integral of
+        # s exp(c omega) phi(omega) is s exp(c^2 / 2)
+        'derive-in-integral:first-parameter': (('*', ('derive', _mgf(), 'b1'), _phi(om)),
+                                               lambda p, row: p['s'] * (0.1 * row['x1']) ** 2 * p['b1'] * math.exp((0.1 * row['x1'] * p['b1']) ** 2 / 2.0)),
+        'derive-in-integral:other-parameter': (('*', ('derive', _mgf(), 's'), _phi(om)),
+                                               lambda p, row: math.exp((0.1 * row['x1'] * p['b1']) ** 2 / 2.0)),
+        'derive-in-integral:variable': (('*', ('derive', _mgf(), 'x1'), _phi(om)),
+                                        lambda p, row: p['s'] * (0.1 * p['b1']) ** 2 * row['x1'] * math.exp((0.1 * row['x1'] * p['b1']) ** 2 / 2.0)),
     }
+
+
+def _mgf():
+    return ('*', B('s'), ('exp', ('*', ('*', ('*', B('b1'), ('rv', 'omega')), ('num', 0.1)), V('x1'))))
 
 
 def _integrate(task, rec):
@@ -610,6 +682,16 @@ def replay(case):
         return viol
     elif part == 'sidebyside':
         _sidebyside(case, rec)
+    elif part == 'seeded_hash':
+        outs = []
+        for hs in case.get('hashseeds', [0, 1]):
+            r_ = Rec()
+            _seeded_hash(dict(part='seeded_hash', hashseed=hs, seed=case['seed']), r_)
+            outs.append(r_.extra['values'] if r_.extra else None)
+        if outs[0] != outs[1]:
+            return [dict(key='C10|same-seed-different-results|several-pseudo-random-draw-variables:across-interpreter-hash-seeds',
+                         what=f'{outs}', case=case)]
+        return []
     elif part == 'native_table':
         _native_table(case, rec)
     elif part == 'reuse':
